@@ -279,6 +279,11 @@ def actualOf (n : Node) (u : Nat) : Option Health :=
   | some i => some i.s.sw.actual
   | none => (n.findApp u).map (·.a.sw.actual)
 
+/-- the health write of a `receive` call applied to the node -/
+def applyHealthWrite (n : Node) (u : Nat) : HealthWrite → Node
+  | some h => setActual n u h
+  | none => n
+
 namespace NetNode
 
 /-- every object of a modelled class gets its initial data when it appears in the heap (constructor) -/
@@ -303,7 +308,7 @@ def recvAt (nn : NetNode) (u port proto : Nat) (p : Payload) : NetNode × RecvRe
   | none => (nn, { uid := u, handled := can, ret := none }, [], p)
   | some d =>
     let ((d', r, out, p'), hw) := d.receiveH can nn.now (dhas "database-client" nn.n.software) p
-    ({ nn with data := dset u d' nn.data, n := (match hw with | some h => setActual nn.n u h | none => nn.n) },
+    ({ nn with data := dset u d' nn.data, n := applyHealthWrite nn.n u hw },
      { uid := u, handled := can, ret := some r },
      out.map (fun (dst, q) => { src := u, dst := dst, port := port, proto := proto, payload := q }), p')
 
